@@ -168,6 +168,17 @@ pub fn wide_literal() -> impl Strategy<Value = String> {
     })
 }
 
+/// Literals whose exponent field is at or beyond the limits of 32- and 64-bit
+/// exponent arithmetic (the value is 0, tiny, huge, or - with a matching
+/// mantissa shift - perfectly ordinary).
+pub fn extreme_exponent_literal() -> impl Strategy<Value = String> {
+    let exps = vec!["2147483647", "2147483648", "-2147483648", "-2147483649", "4294967296", "-4294967297", "9223372036854775807", "9223372036854775808", "-9223372036854775808", "-9223372036854775809", "18446744073709551616", "99999999999999999999", "-99999999999999999999", "400", "-400", "39", "-46", "309", "-325"];
+    (any::<bool>(), prop_oneof![2 => Just("0".to_string()), 2 => Just("0.000".to_string()), 1 => Just(".0".to_string()), 4 => "[1-9][0-9]{0,4}", 2 => "[0-9]{1,3}\\.[0-9]{1,3}"], proptest::sample::select(exps), any::<bool>(), any::<bool>()).prop_map(|(neg, mant, exp, upper, plus)| {
+        let plus = if plus && !exp.starts_with('-') { "+" } else { "" };
+        format!("{}{mant}{}{plus}{exp}", if neg { "-" } else { "" }, if upper { 'E' } else { 'e' })
+    })
+}
+
 /// Spellings of zero.
 pub fn zero_literal() -> impl Strategy<Value = String> {
     (any::<bool>(), prop_oneof![Just("0"), Just("00"), Just("000000")], 0u32..4, style_strategy(30)).prop_map(|(neg, digits, scale, st)| render(neg, digits, scale, &st))
